@@ -23,6 +23,7 @@ type vxGhostPut struct {
 func vxSymTable(maxLog int) *TtTable {
 	k := vxU8("log2N")
 	vxAssume(int(k) <= maxLog)
+	vxPrefer(k <= 20) // counterexamples with small tables can be rebuilt natively for the replay
 	return vxSymTableK(k)
 }
 
